@@ -9,7 +9,7 @@
    C17_pad_covers_uint64); LoadRange is end-exclusive (obligations src_*_LoadRange_ok). *)
 From Coq Require Import String.
 From PDV Require Import lib.Base lib.C17_Map gen.Gen_C17 model.C17_Storage
-     proof.C17_PagingProof proof.C17_StorageProof proof.C17_Skel.
+     proof.C17_PagingProof proof.C17_StorageProof proof.C17_PruneProof proof.C17_Skel.
 Local Open Scope Z_scope.
 Local Open Scope list_scope.
 
@@ -140,18 +140,46 @@ Theorem C17_crash_keeps_flushed :
 Proof. exact crash_keeps_flushed. Qed.
 
 (* ------------------------------------------------------------------------------------------ *)
-(* 5. pruning: clauses stated, not yet proved (checks/C17.json "todo")                         *)
+(* 5. pruning                                                                                 *)
 (* ------------------------------------------------------------------------------------------ *)
-Definition same_content (m : amap rv) (c : cache) : Prop :=
-  forall id v, lookup m id = Some v <-> In (id, v) c.
-Definition disjoint_cache (c : cache) : Prop :=
-  forall a b, In a c -> In b c -> a <> b -> fst a <> fst b /\ intersects (snd a) (snd b) = false.
-
-(* after LoadRegions(CheckAndPutRegion) into an empty cluster, storage and cache hold the same non-overlapping set *)
-Definition C17_load_prunes_to_cache_todo : Prop :=
+(* After LoadRegions(CheckAndPutRegion) into an empty cluster (no LoadRange faults, ids below 2^64-1), storage and
+   cache hold the same set of regions with the same values, cached ids are distinct and no two cached ranges
+   intersect: stale and overlapped leftovers are gone from both. *)
+Theorem C17_load_prunes_to_cache :
   forall (m : amap rv), sorted_from 0 m -> (forall k v, In (k, v) m -> k < max_id) ->
     let res := load_regions never_fails check_and_put m [] in
-    fst (fst (fst res)) = RDone /\ same_content (snd (fst res)) (snd res) /\ disjoint_cache (snd res).
+    fst (fst (fst res)) = RDone /\ same_content (snd (fst res)) (snd res) /\ disjoint (snd res) /\ ids_distinct (snd res).
+Proof. exact load_prunes_to_cache_pf. Qed.
+
+(* Full statement without the bound on ids. *)
+Definition C17_load_prunes_to_cache_full : Prop :=
+  forall (m : amap rv), sorted_from 0 m -> (forall k v, In (k, v) m -> k < two64) ->
+    let res := load_regions never_fails check_and_put m [] in
+    same_content (snd (fst res)) (snd res).
+(* refuted on the unchanged code: region 2^64-1 stays in storage and never reaches the cache (S9) *)
+Theorem C17_load_prunes_to_cache_refuted : ~ C17_load_prunes_to_cache_full.
+Proof.
+  intros H. unfold C17_load_prunes_to_cache_full in H.
+  specialize (H [(max_id, RV 1 2 1 1 10)]).
+  assert (Hs : sorted_from 0 [(max_id, RV 1 2 1 1 10)]) by (split; [unfold max_id, two64; lia|exact I]).
+  assert (Hb : forall k v, In (k, v) [(max_id, RV 1 2 1 1 10)] -> k < two64).
+  { intros k v [E|[]]. inversion E. unfold max_id. lia. }
+  specialize (H Hs Hb). cbv zeta in H.
+  destruct (H max_id (RV 1 2 1 1 10)) as [H1 _].
+  assert (In (max_id, RV 1 2 1 1 10) (snd (load_regions never_fails check_and_put [(max_id, RV 1 2 1 1 10)] []))).
+  { apply H1. vm_compute. reflexivity. }
+  vm_compute in H0. exact H0.
+Qed.
+
+(* With the RegionStorage backend the loads read leveldb only: a save that is still buffered when the pruning load
+   runs is invisible to it (stated, not proved: checks/C17.json "todo"). *)
+Definition C17_prune_with_pending_batch_todo : Prop :=
+  forall s, SInv s -> use_rs s = true -> batch s = [] ->
+    (forall k v, In (k, v) (ldb s) -> k < max_id) ->
+    match snd (run_op s OLoadIntoCache) with
+    | BCache RDone _ c after => same_content after c /\ disjoint c
+    | _ => False
+    end.
 
 (* non-vacuity *)
 Example C17_nonvacuous :
@@ -177,3 +205,5 @@ Print Assumptions C17_load_regions_direct.
 Print Assumptions C17_flush_makes_durable_refuted.
 Print Assumptions C17_flush_makes_durable_partial.
 Print Assumptions C17_crash_keeps_flushed.
+Print Assumptions C17_load_prunes_to_cache.
+Print Assumptions C17_load_prunes_to_cache_refuted.
